@@ -9,6 +9,7 @@ import (
 	"math/big"
 	"math/rand"
 	"os"
+	"path/filepath"
 	"reflect"
 	"time"
 
@@ -273,6 +274,21 @@ func (d *storeDrv) apply(op []any) (err error) {
 	case "closeunder":
 		l := d.st.(*crlstore.LevelDbStore)
 		return l.Db.Close()
+	case "opendamaged":
+		// the store is closed, its MANIFEST is overwritten with noise, then it is opened again (which is expected to fail: the handle
+		// stays the closed one and every getter reports an error)
+		d.st.Close()
+		ms, _ := filepath.Glob(filepath.Join(d.dir, d.id, "MANIFEST-*"))
+		if len(ms) == 0 {
+			return fmt.Errorf("no MANIFEST under %s", filepath.Join(d.dir, d.id))
+		}
+		for _, m := range ms {
+			os.WriteFile(m, bytes.Repeat([]byte{0xde, 0xad, 0xbe, 0xef}, 64), 0o644)
+		}
+		if ns, err := d.factory.CreateStore(d.id, false); err == nil {
+			d.st = ns
+		}
+		return nil
 	case "corrupt":
 		return d.corrupt(op[1].(string))
 	}
@@ -593,6 +609,16 @@ func runStoreWalk(c *vk.Ctx, prop string, backends []string, keys []string, walk
 						json.Unmarshal([]byte(e.To), &st)
 						if open, _ := st["open"].(bool); !open {
 							fault = "closed"
+						}
+						if opName == "opendamaged" {
+							// a store that repairs itself and answers with what was stored has determined the status: only an answer that
+							// differs from the stored one (above all "not revoked" for a stored entry) is the fault turned into an answer
+							ents, _ := st["ents"].(map[string]any)
+							stored, _ := ents[k].(string)
+							if o.Look[k] == stored || (stored == "absent" && o.Look[k] == "notrevoked") {
+								continue
+							}
+							fault = "damaged-at-open"
 						}
 						c.Violation(fmt.Sprintf("store:%s:%s", d.backend, fault),
 							fmt.Sprintf("lookup(%s) with store fault %q answered %q instead of an error", k, fault, o.Look[k]), rep)
